@@ -42,4 +42,16 @@ PROPS = {
         assumptions=["collectExpired is modelled as one atomic sweep (the documented re-add/sweep race is excluded)"],
         shards={"quick": 8, "thorough": 16},
     ),
+    "C09": dict(
+        pkg=".", test="TestVerifC09", model="C09", verdict="C09v", level="proof",
+        rule="a case is a server configuration (K, mode, subsystems, routing table, peerstore addresses incl. >8KiB "
+             "lists, stored providers/values) plus 3-14 requests of every message type with missing/oversized/"
+             "mismatched fields, stuffed peer records, foreign/invalid provider records and raw malformed frames, sent "
+             "through the real stream handler; non-trivial = at least one reset and >=3 other feature classes; "
+             "distinct = distinct case text",
+        trusted=["kbucket NearestPeers (its answer is an input of the model)", "protobuf/multiaddr codecs, msgio framing",
+                 "pstoremem peerstore", "simnet fake host/stream"],
+        assumptions=["peer ids of 38 bytes"],
+        shards={"quick": 8, "thorough": 16},
+    ),
 }
